@@ -12,6 +12,8 @@ import (
 	"encoding/binary"
 	"errors"
 	"io"
+	"os"
+	"syscall"
 )
 
 // CapExceeded is the panic value raised by the reader when the code under
@@ -37,6 +39,10 @@ func (f *Fault) err() error {
 		return io.EOF
 	case 2:
 		return io.ErrUnexpectedEOF
+	case 3:
+		return syscall.EAGAIN // an error type that reports Temporary() == true
+	case 4:
+		return &os.PathError{Op: "read", Path: "/dev/urandom", Err: syscall.EINTR}
 	}
 	return InjectedFault
 }
